@@ -38,13 +38,28 @@ def spec_window(frame, c, p, h=None, w=None):
     return np.array(out, dtype=frame.dtype).reshape(h, w)
 
 
-def real_crops(frame, c, peaks, backend, dtype, h=None, w=None, sparse_frame=False, extra_slots=0, peaks_dtype="int64"):
+def real_crops(frame, c, peaks, backend, dtype, h=None, w=None, sparse_frame=False, extra_slots=0, peaks_dtype="int64",
+               layout=None):
     h = 2 * c if h is None else h
     w = 2 * c if w is None else w
     buf = np.full((len(peaks) + extra_slots, h, w), SENT, dtype=dtype)
     fr = frame.astype(dtype)
+    if layout == "F":
+        fr = np.asfortranarray(fr)
+    elif layout == "strided":            # every second row and column of a larger array
+        wide = np.full((2 * fr.shape[0], 2 * fr.shape[1]), SENT, dtype=fr.dtype)
+        wide[::2, ::2] = fr
+        fr = wide[::2, ::2]
+    elif layout == "readonly":
+        fr.setflags(write=False)
     # the container the integer peaks arrive in (centers buffers of the UDFs are uint16, user code passes what it has)
     pk = np.asarray(peaks, dtype=np.int64).reshape(-1, 2).astype(peaks_dtype)
+    if layout in ("strided", "F"):       # ... and the peak list as a view (two columns of a wider table / column-major)
+        tab = np.zeros((len(pk), 5), dtype=pk.dtype)
+        tab[:, 1::2][:, :2] = pk
+        pk = tab[:, 1::2][:, :2] if layout == "strided" else np.asfortranarray(pk)
+    elif layout == "readonly":
+        pk.setflags(write=False)
     if backend == "pixel":
         bc.crop_disks_from_frame(pk, fr, c, buf)
     else:
@@ -189,7 +204,7 @@ def run_case(kind, params):
         try:
             res[be] = real_crops(frame, c, peaks, be, dt, sparse_frame=bool(params.get("sparse")),
                                  extra_slots=int(params.get("extra_slots", 0)),
-                                 peaks_dtype=params.get("peaks_dtype", "int64"))
+                                 peaks_dtype=params.get("peaks_dtype", "int64"), layout=params.get("layout"))
         except Exception as e:
             msgs.append(f"{be} back-end raised {type(e).__name__}: {e}")
     fr = frame.astype(dt)
@@ -275,6 +290,9 @@ def search(ctx, boost=1, focus=()):
             continue
         cases.append({"frame": rng.integers(1, 60000, (fy, fx)), "c": c, "peaks": peaks,
                       "dtype": dts[k % len(dts)], "sparse": k % 5 == 0, "extra_slots": int(rng.integers(1, 4)) if k % 4 == 1 else 0})
+        if k % 6 == 2 and k % 5 != 0:
+            cases[-1]["layout"] = ("F", "strided", "readonly")[(k // 6) % 3]
+            ctx.count("layout_" + cases[-1]["layout"])
     # the same integer peaks held in other integer containers (unsigned ones included: a peak next to the top / left border has
     # a window origin below zero, which the container type cannot hold)
     pdts = ("uint16", "uint8", "uint32", "uint64", "int16", "int32", "int8")
